@@ -782,7 +782,15 @@ def run_decomp(kind, shape, spec, seed, _spy=None, **kw):
     if kind == "DCmtf":
         shape3, m = shape
         X = data_tensor(shape3, seed); Y = data_tensor((shape3[0], m), seed + 1)
-        out = coupled_matrix_tensor_3d_factorization(X, Y, spec, n_iter_max=kw.get("n_iter_max", 2))
+        if kw.get("loop"):
+            # round 8: iteration cap x tol x init x normalize_factors, the lstsq calls logged by _spy; the error list gives the number of sweeps
+            with _ctx:
+                out = coupled_matrix_tensor_3d_factorization(X, Y, spec, n_iter_max=kw.get("n_iter_max", 2), tol=kw.get("tol", 1e-6), init=kw.get("init", "svd"),
+                                                             normalize_factors=kw.get("normalize_factors", False))
+            if _spy is not None:
+                _spy.sweeps = len(out[2])
+        else:
+            out = coupled_matrix_tensor_3d_factorization(X, Y, spec, n_iter_max=kw.get("n_iter_max", 2))
         t, mp, _ = out
         return [shp(t.weights)] + [shp(f) for f in t.factors] + [shp(mp.weights)] + [shp(f) for f in mp.factors], out
     X = data_tensor(shape, seed, positive=kw.get("positive", False), kind=kw.get("data", "normal"))
@@ -839,12 +847,12 @@ class TrAlsSpy:
     """harness-level interposition: the name `tl` bound inside tensorly.decomposition._tr_als is replaced for one call by a proxy that forwards every
     attribute and logs the argument shapes of the lstsq / solve calls (the least-squares sub-problems of the ALS sweeps)"""
 
-    def __init__(self):
-        self.log, self.answers = [], []
+    def __init__(self, module="tensorly.decomposition._tr_als"):
+        self.log, self.answers, self.module, self.sweeps = [], [], module, None
 
     def __enter__(self):
         import importlib
-        self.mod = importlib.import_module("tensorly.decomposition._tr_als")
+        self.mod = importlib.import_module(self.module)
         self.real = self.mod.tl
         spy = self
 
@@ -882,6 +890,35 @@ def tr_als_loop_cases(tier, rng):
                 yield dict(kind="DTrAls", shape=s, spec=sp,
                            kw=dict(loop=True, n_iter_max=rng.choice([0, 1, 2, 3, 5]), tol=rng.choice([0, 1e10, 1e-3, 1e-6]),
                                    cb_stop=rng.choice([None, None, 0, 1, 2, 99]), ls_solve=rng.choice(["lstsq", "lstsq", "normal_eq"])))
+
+
+def cmtf_loop_cases(tier, rng):
+    """coupled_matrix_tensor_3d_factorization with at least one sweep: shape x matrix width x rank spec x iteration cap x tol x init x normalize_factors"""
+    quick = tier == "quick"
+    shapes = list(grid_shapes([3], [2, 3])) + [tuple(rng.choice([1, 2, 3, 4, 5]) for _ in range(3)) for _ in range(4 if quick else 16)]
+    for s3 in (rng.sample(shapes, 8) if quick else shapes):
+        for _ in range(2 if quick else 6):
+            yield dict(kind="DCmtf", shape=(s3, rng.choice([1, 2, 3, 5])), spec=rng.choice([1, 2, 3, "same", 0.5]),
+                       kw=dict(loop=True, n_iter_max=rng.choice([1, 2, 3, 6]), tol=rng.choice([1e-6, 1e10, 0]), init=rng.choice(["svd", "random"]),
+                               normalize_factors=rng.random() < 0.4))
+
+
+def cmtf_loop_lit(cid, case, st, shapes, spy):
+    """(Gallina case, what was observable) for one run of CMTF against Model/StructureCmtf.v cmtf_run / cmtf_sweep"""
+    (s3, m), spec, kw = case["shape"], case["spec"], case["kw"]
+    decisions, with_log, obs = [], False, None
+    if st == "ok":
+        k_ = spy.sweeps or 0
+        decisions = [(i == k_ - 1) and k_ < kw["n_iter_max"] for i in range(k_)]
+        first = spy.log[:4]
+        with_log = k_ >= 1 and len(spy.log) == 4 * k_ and all(e[0] == "lstsq" for e in first)
+        obs = [tuple(x) for x in shapes]
+        if with_log:
+            for _, a, b in first:
+                obs += [a, b]
+    dl = "[" + "; ".join(C.boolc(b) for b in decisions) + "]"
+    lit = (f"({cid}%N, (DCmtfLoop {C.nat_list(list(s3))} {C.nat(m)} {spec_lit(spec)} {C.nat(kw['n_iter_max'])} {dl} {C.boolc(with_log)}), {shapes_lit(st, obs)})")
+    return lit, ("rejected" if st != "ok" else "lstsq systems compared" if with_log else "solver calls not observable")
 
 
 def tr_als_loop_lit(cid, case, st, shapes, spy):
@@ -1231,7 +1268,7 @@ ENTRY = {"VCp": "tensorly.cp_tensor.validate_cp_rank", "VTucker": "tensorly.tuck
          "VTtm": "tensorly.tt_matrix.validate_tt_matrix_rank", "DTt": "tensorly.decomposition.tensor_train",
          "DTtm": "tensorly.decomposition.tensor_train_matrix", "DTr": "tensorly.decomposition.tensor_ring",
          "DTucker": "tensorly.decomposition.tucker", "DCp": "tensorly.decomposition.parafac",
-         "DParafac2": "tensorly.decomposition.parafac2", "DTrAls": "tensorly.decomposition.tensor_ring_als", "DTrAlsLoop": "tensorly.decomposition.tensor_ring_als",
+         "DParafac2": "tensorly.decomposition.parafac2", "DTrAls": "tensorly.decomposition.tensor_ring_als", "DTrAlsLoop": "tensorly.decomposition.tensor_ring_als", "DCmtfLoop": "tensorly.decomposition._cmtf_als.coupled_matrix_tensor_3d_factorization",
          "DCmtf": "tensorly.decomposition.coupled_matrix_tensor_3d_factorization",
          "VTuckerFm": "tensorly.tucker_tensor.validate_tucker_rank"}
 
@@ -2461,8 +2498,8 @@ def _run(chk, rng):
         if st != "ok" and str(v) == "timeout":
             timeouts += 1
             continue
-        if st != "ok" and str(v).startswith("LinAlgError") and "ingular" in str(v):
-            skipped += 1          # singular normal equations (data dependent); any other LinAlgError (incompatible dimensions) is a structural outcome
+        if st != "ok" and str(v).startswith("LinAlgError") and ("ingular" in str(v) or "converge" in str(v)):
+            skipped += 1          # singular normal equations / non-finite iterates (data dependent); any other LinAlgError (incompatible dimensions) is a structural outcome
             continue
         shapes, out = v if st == "ok" else (None, None)
         cid = len(cases)
@@ -2477,6 +2514,33 @@ def _run(chk, rng):
             if r:
                 chk.finding(ENTRY["DTrAls"], dict(kind="DTrAls", shape=list(s), spec=(list(spec) if isinstance(spec, tuple) else spec), kw=kw, seed=case["seed"]), r[0], r[1],
                             observed=[list(x) for x in shapes])
+    # ---- the loop of CMTF with at least one sweep (Model/StructureCmtf.v): returned shapes + the four lstsq systems of the first sweep
+    for case in cmtf_loop_cases(tier, rng):
+        s, spec, kw = case["shape"], case["spec"], case["kw"]
+        case["seed"] = rng.randrange(10 ** 6)
+        if zero_rank(case):
+            skipped += 1
+            continue
+        cspy = TrAlsSpy("tensorly.decomposition._cmtf_als")
+        st, v = C.call_impl(run_decomp, "DCmtf", s, spec, case["seed"], timeout=60, _spy=cspy, **kw)
+        if st != "ok" and str(v) == "timeout":
+            timeouts += 1
+            continue
+        if st != "ok" and str(v).startswith("LinAlgError") and ("ingular" in str(v) or "converge" in str(v)):
+            skipped += 1
+            continue
+        shapes, out = v if st == "ok" else (None, None)
+        cid = len(cases)
+        lit, what_obs = cmtf_loop_lit(cid, case, st, shapes, cspy)
+        cases.append(lit)
+        meta.append(dict(kind="DCmtfLoop", shape=s[0], spec=spec, kw=dict(kw, m=s[1])))
+        chk.count(key=("cmtf_loop", s, spec if not isinstance(spec, float) else ("frac", spec), tuple(sorted((k, str(v_)) for k, v_ in kw.items()))), nontrivial=prod(s[0]) > 1)
+        chk.hist("entry_point", "DCmtfLoop"); chk.hist("cmtf_loop", what_obs)
+        if st == "ok":
+            chk.cov["evaluations"] += 1
+            r = pred_structure(case, shapes, out)
+            if r:
+                chk.finding(ENTRY["DCmtf"], dict(kind="DCmtf", shape=[list(s[0]), s[1]], spec=spec, kw=kw, seed=case["seed"]), r[0], r[1], observed=[list(x) for x in shapes])
     # ---- validate_tucker_rank with fixed_modes (Model/StructureRanks.v)
     for case in vfm_cases(tier, rng):
         s, spec, kw = case["shape"], case["spec"], case["kw"]
@@ -2709,6 +2773,7 @@ def _run(chk, rng):
         what = ("corr:C08 (Model/Structure.v cp_run vs control flow of the CP drivers)" if m["kind"] == "DNorm" else
                 "corr:C08 (Model/Structure.v partial_tucker / tucker_fixed vs the implementation's shapes)" if m["kind"] == "DTuckerX" else
                 "corr:C08 (Model/StructureHooi.v tt_calls / tr_calls vs the svd_interface calls of tensor_train / tensor_ring / tensor_train_matrix)" if m["kind"] == "SvdCalls" else
+                "corr:C08 (Model/StructureCmtf.v cmtf_run / cmtf_sweep vs the returned shapes and the four lstsq systems of the first sweep of coupled_matrix_tensor_3d_factorization)" if m["kind"] == "DCmtfLoop" else
                 "corr:C08 (Model/StructureTrAls.v tr_als_run / tr_als_sweep_log vs the returned core shapes and the lstsq systems of the first sweep of tensor_ring_als)" if m["kind"] == "DTrAlsLoop" else
                 "corr:C08 (Model/StructureHooi.v hooi_run vs the call log of svd_interface / multi_mode_dot in tucker / partial_tucker)" if m["kind"] == "DHooi" else
                 "corr:C08 (loop skeleton read off the source does not satisfy desc_ok: some exit returns un-normalised factors)" if m["kind"] == "Desc" else
